@@ -8,7 +8,9 @@ correspondence: the model (QNum, vm_compute) against the implementation on every
                 user's key order (permuted keys, subsets -> KeyError), the rows handed to the optimiser vs the requested branch, position of the model
                 returned by ModelIsotherm.guess among the single fits (least_squares is observed by proxying base_model.optimize)
 oracle/search : on the implementation: contract of least_squares (fun == residual at x, bounds), error identity recomputed through the model's own
-                loading()/pressure() on increasing / decreasing / shuffled rows and on both branches of two-branch DataFrames, exact-data recovery
+                loading()/pressure() on increasing / decreasing / shuffled rows and on both branches of two-branch DataFrames, and for the documented
+                optional arguments (optimization_params incl. the robust losses soft_l1 / huber / cauchy / arctan with f_scale, solver settings, param_guess,
+                param_bounds, verbose) on strongly noisy increasing data with outliers through all four entry points; exact-data recovery
                 for the well-posed models in every row order, best-of-list vs single fits (smallest reported AND smallest independently recomputed
                 error), bounds by name for permuted / partial dictionaries with binding caps (same outcome as in param_names order), branch
                 clause (perturbing the other branch changes nothing), PointIsotherm.from_modelisotherm lies on the model / keeps metadata /
@@ -28,7 +30,10 @@ MANIFEST = dict(
     text="PARTIAL proof. Machine-checked (Coq 8.16) for a hand-written model of the decision logic around scipy.optimize.least_squares: "
          "initial_guess_bounds puts every start value inside its bounds; whenever fit succeeds the parameters respect the bounds in force and the "
          "reported error IS sqrt(sum r_i^2 / N)/range of the residual of the fitted model at the returned parameters (premise: least_squares returns "
-         "fun = residual(x) with x inside the bounds); ModelIsotherm.guess returns a candidate that converged, with the smallest reported error, the "
+         "fun = residual(x) with x inside the bounds) - also for the expression GENERATED from the source line `self.rmse = ...` of IsothermBaseModel.fit / "
+         "Virial.fit together with the generated residual and range (tools/py2v_fitglue.py, fail-closed: every other statement of fit is compared with the text "
+         "the translator knows): whatever cost / optimality the optimiser reports and whatever optimization_params (robust losses) it was given, the value "
+         "assigned is the documented error of the residual vector; ModelIsotherm.guess returns a candidate that converged, with the smallest reported error, the "
          "earliest among ties (induction over any attempt list); bounds and start values are dictionaries keyed by parameter NAME: the vector handed to "
          "the optimiser at position i is the entry of param_names[i] for ANY key order of the user's dictionary (induction over the name list and over "
          "Permutation), a missing name is a KeyError, so every fitted parameter lies within the bounds given for ITS name; the normalising range is "
@@ -179,8 +184,74 @@ def kw_iso(mode):
                 loading_basis='molar', loading_unit='mmol', material_basis='mass', material_unit='g')
 
 
+def noisy_increasing(rnd, p, l):
+    """strongly noisy increasing data with outliers: multiplicative noise of 3-25 %, 0-3 points pushed far off the curve, then made increasing again
+    either by sorting the loadings or by a running maximum (an outlier then lifts every later point: a step). -> (p, l, description)"""
+    sigma = rnd.choice([0.03, 0.08, 0.15, 0.25])
+    l = np.asarray(l, dtype=float) * (1 + np.array([rnd.gauss(0, sigma) for _ in p]))
+    n_out = rnd.choice([0, 1, 1, 2, 3])
+    for j in rnd.sample(range(len(l)), n_out):
+        l[j] = l[j] * rnd.choice([0.3, 0.5, 1.6, 2.5]) + rnd.choice([0.0, 0.5 * float(np.max(l))])
+    how = rnd.choice(['sorted', 'running-max'])
+    l = np.sort(l) if how == 'sorted' else np.maximum.accumulate(l)
+    l = np.maximum(l, 1e-6)
+    return np.asarray(p, dtype=float), l, 'noise %g, %d outliers, %s' % (sigma, n_out, how)
+
+
+def random_optimization_params(rnd, it):
+    """the documented `optimization_params` dictionary (handed to scipy.optimize.least_squares): None, a robust loss with / without f_scale,
+    solver settings, or both"""
+    c = it % 5
+    if c == 0:
+        return None
+    opt = {}
+    if c in (1, 2, 3):
+        opt['loss'] = rnd.choice(['soft_l1', 'huber', 'cauchy', 'arctan'])
+        if rnd.random() < 0.6:
+            opt['f_scale'] = float(rnd.choice([0.05, 0.1, 0.3, 0.5, 1.0, 2.0]))
+    if c in (3, 4):
+        for key, val in rnd.sample([('ftol', 1e-10), ('xtol', 1e-10), ('gtol', 1e-10), ('max_nfev', 4000), ('method', 'dogbox'), ('x_scale', 'jac'),
+                                    ('tr_solver', 'exact'), ('jac', '3-point'), ('loss', 'linear')], rnd.randint(1, 3)):
+            opt.setdefault(key, val)
+    return opt
+
+
+def fit_with_options(entry, k, p, l, mode, opt, verbose, extra):
+    """one fit through one of the documented entry points, every optional argument handed over as the user would (fresh dictionaries)"""
+    import pygaps
+    import pygaps.modelling as pgm
+    kw = dict(model=k, optimization_params=None if opt is None else dict(opt), verbose=verbose)
+    for a in ('param_guess', 'param_bounds'):
+        if a in extra:
+            kw[a] = dict(extra[a])
+    try:
+        if entry == 'init':
+            return call(pygaps.ModelIsotherm, pressure=p, loading=l, **kw, **kw_iso(mode))
+        if entry == 'init-frame':
+            df = pd.DataFrame({'pressure': p, 'loading': l})
+            return call(pygaps.ModelIsotherm, isotherm_data=df, pressure_key='pressure', loading_key='loading', **kw, **kw_iso(mode))
+        piso = pygaps.PointIsotherm(pressure=list(p), loading=list(l), **kw_iso(mode))
+        if entry == 'from_pointisotherm':
+            return call(pygaps.ModelIsotherm.from_pointisotherm, piso, **kw)
+        return call(pgm.model_iso, piso, **kw)
+    finally:
+        if verbose:
+            close_figures()
+
+
+def close_figures():
+    try:
+        import matplotlib.pyplot as plt
+        plt.close('all')
+    except Exception:  # noqa
+        pass
+
+
+EXTRA_TARGETS = ['Fit/FitShow.vo']
+
+
 def run(rep, tier, seed):
-    vlib.standard_proof_phase(rep, 'C12', extra_targets=['Fit/FitShow.vo'])
+    vlib.standard_proof_phase(rep, 'C12', extra_targets=EXTRA_TARGETS)
     explore(rep, tier, seed)
     if rep.broken and not rep.violations and tier != 'thorough':
         explore(rep, 'thorough', seed + 1)
@@ -456,6 +527,58 @@ def _explore(rep, tier, seed, proxy):
                 zlist(lo_v) if rec is not None else '[]', zlist(hi_v) if rec is not None else '[]', zlist(x0_v) if rec is not None else '[]'))
             term_what.append(('named-bounds', replay))
 
+    # ---------------- O: the documented OPTIONAL arguments of a fit (optimization_params handed to least_squares incl. the robust losses, param_guess,
+    #                  param_bounds, verbose) on strongly noisy increasing data with outliers, through every entry point: the clauses that hold for ANY
+    #                  successful fit (error identity at the returned parameters, bounds, least_squares contract) must hold for every combination
+    rnd_o = random.Random(seed * 7919 + 12)
+    try:
+        import matplotlib
+        matplotlib.use('Agg')
+    except Exception:  # noqa
+        pass
+    entries = ['init', 'from_pointisotherm', 'model_iso', 'init-frame']
+    n_verbose = 0
+    for it in range(220 if big else 44):
+        k = ALL_MODELS[it % len(ALL_MODELS)] if it < 2 * len(ALL_MODELS) else rnd_o.choice(ALL_MODELS)
+        base = rnd_o.choice(['Langmuir', 'Toth', 'DSLangmuir']) if k not in RELATIVE else rnd_o.choice(['BET', 'DA'])
+        p, mode = grid(rnd_o, base)
+        l = exact_curve(base, rparams(rnd_o, base), p)
+        p, l, shape = noisy_increasing(rnd_o, p, l)
+        opt = random_optimization_params(rnd_o, it)
+        m0 = get_isotherm_model(k)
+        g = exact_like_guess(m0, p, l)
+        extra = {}
+        usable = g is not None and all(math.isfinite(g.get(n, float('nan'))) for n in m0.param_names)
+        c = rnd_o.random()
+        if usable and c < 0.35:          # user guess: the default start moved (inside the default bounds), keys in another order
+            names_g = list(m0.param_names)
+            rnd_o.shuffle(names_g)
+            extra['param_guess'] = {n: float(min(max(g[n] * rnd_o.uniform(0.7, 1.4) if g[n] != 0 else rnd_o.uniform(-0.1, 0.1), m0.param_bounds[n][0]), m0.param_bounds[n][1]))
+                                    for n in names_g}
+        if usable and 0.25 < c < 0.6:    # user bounds: the defaults with the first positive parameter boxed around its default start
+            nm = next((n for n in m0.param_names if g[n] > 0), None)
+            if nm is not None:
+                box = (max(g[nm] * rnd_o.uniform(0.3, 0.9), m0.param_bounds[nm][0]), min(g[nm] * rnd_o.uniform(1.1, 4.0), m0.param_bounds[nm][1]))
+                if box[0] < box[1]:
+                    extra['param_bounds'] = {n: (box if n == nm else tuple(b)) for n, b in zip(m0.param_names, m0.param_default_bounds)}
+                    if 'param_guess' in extra:
+                        extra['param_guess'][nm] = float(min(max(extra['param_guess'][nm], box[0]), box[1]))
+        verbose = it % 9 == 4 and n_verbose < (12 if big else 5)
+        n_verbose += verbose
+        entry = entries[it % 4] if not (verbose and k == 'Virial') else 'init'
+        replay = dict(kind='options', model=k, p=p.tolist(), l=l.tolist(), mode=mode, data=shape, entry=entry, optimization_params=opt, verbose=bool(verbose),
+                      param_guess=extra.get('param_guess'), param_bounds={n: list(b) for n, b in extra['param_bounds'].items()} if 'param_bounds' in extra else None)
+        n0 = len(proxy.calls)
+        oc, iso = fit_with_options(entry, k, p, l, mode, opt, verbose, extra)
+        label = 'options-' + ('default' if not opt else ('loss-' + opt['loss'] if 'loss' in opt else 'solver')) + ('-verbose' if verbose else '')
+        note('%s/%s/%s/%s' % (label, entry, k, oc))
+        if oc == 'Ok' and len(proxy.calls) > n0 and proxy.calls[-1]['res'] is not None:
+            check_fit(iso, p, l, proxy.calls[-1], replay, label)
+            if opt and 'loss' in opt:
+                stats['robust_loss_fits'] = stats.get('robust_loss_fits', 0) + 1
+        # a fit that raises returns no error to judge (CalculationError is the documented outcome; anything else is outside the C12 clauses)
+    close_figures()
+
     # ---------------- C: best of a candidate list vs the single fits; rows in any order, arrays or a branch of a two-branch DataFrame
     fast = ['Henry', 'Langmuir', 'DSLangmuir', 'DR', 'Freundlich', 'Quadratic', 'BET', 'TemkinApprox', 'Toth', 'JensenSeaton', 'TSLangmuir', 'GAB', 'DA', 'Virial']
     variants = ['arrays-inc', 'frame-des', 'arrays-dec', 'arrays-shuf', 'frame-ads']
@@ -493,16 +616,21 @@ def _explore(rep, tier, seed, proxy):
                 df['branch'] = marks
             data_kw = dict(isotherm_data=df, pressure_key='pressure', loading_key='loading', branch=want)
             replay = dict(kind='guess', models=cands, p=p.tolist(), l=l.tolist(), mode=mode, variant=variant, frame=df.to_dict('list'), branch=want)
-        oc, best = call(pygaps.ModelIsotherm.guess, models=cands, **data_kw, **kw_iso(mode))
-        note('guess-%s/%s' % (variant, oc))
+        # every third list is fitted with the documented optimization_params (a robust loss / solver settings), the same for guess and the single fits
+        opt_c = random_optimization_params(rnd_o, 1 + it % 4) if it % 3 == 2 else None
+        if opt_c:
+            replay['optimization_params'] = opt_c
+        okw = lambda: {} if not opt_c else dict(optimization_params=dict(opt_c))
+        oc, best = call(pygaps.ModelIsotherm.guess, models=cands, **data_kw, **kw_iso(mode), **okw())
+        note('guess-%s%s/%s' % (variant, '-options' if opt_c else '', oc))
         names = list(_GUESS_MODELS) if cands == 'guess' else cands
         singles, actual = [], []
         for nm in names:
             n0 = len(proxy.calls)
-            o1, i1 = call(pygaps.ModelIsotherm, model=nm, **data_kw, **kw_iso(mode))
+            o1, i1 = call(pygaps.ModelIsotherm, model=nm, **data_kw, **kw_iso(mode), **okw())
             singles.append((o1, float(i1.model.rmse) if o1 == 'Ok' else None))
             actual.append(actual_rmse(i1.model, p, l)[0] if o1 == 'Ok' else None)
-            if o1 == 'Ok' and len(proxy.calls) > n0 and proxy.calls[-1]['res'] is not None and it % 2 == 1:
+            if o1 == 'Ok' and len(proxy.calls) > n0 and proxy.calls[-1]['res'] is not None and (it % 2 == 1 or opt_c):
                 check_fit(i1, p, l, proxy.calls[-1], dict(replay, model=nm, kind='noisy'), 'candidate-' + variant)
         if any(o not in ('Ok', 'CalculationError') for o, _ in singles):
             continue      # a candidate raised something else: guess propagates it, nothing to compare
@@ -667,7 +795,10 @@ def _explore(rep, tier, seed, proxy):
                              'BET/DR/DA), rows handed over increasing / from high to low pressure / shuffled; noisy data (2% multiplicative noise, running maximum) in '
                              'the same three orders for all 16 models, half with user bounds excluding the default guess / user guesses; for every model with >= 2 '
                              'parameters: user bounds for all names with binding caps / floors, written in a random key order (never param_names order), every 6th a '
-                             'strict subset, a third with user guesses in another key order; candidate lists of 2-5 models incl. repeated names and "guess" on arrays '
+                             'strict subset, a third with user guesses in another key order; every model x optional arguments (optimization_params: robust loss '
+                             'soft_l1 / huber / cauchy / arctan with / without f_scale, ftol / xtol / gtol / max_nfev / method / x_scale / tr_solver / jac; user guess; '
+                             'user bounds; verbose) on data with 3-25% noise and 0-3 outliers made increasing by sorting or a running maximum, through ModelIsotherm(arrays), '
+                             'ModelIsotherm(DataFrame), from_pointisotherm and model_iso; a third of the candidate lists fitted with optimization_params; candidate lists of 2-5 models incl. repeated names and "guess" on arrays '
                              'in three orders and on the ads / des branch of a two-branch DataFrame (explicit or guessed branch column); two-branch isotherms; 8 unit changes')
     rep.cov['correspondence'] = {'terms_compared_in_coq': len(terms), 'disagreements': n_dis,
                                  'what': 'FitLogic (QNum) vs implementation: clamp (exact), rmse^2 with the range computed by the model from the rows handed over (1e-9, sign), '
@@ -676,7 +807,10 @@ def _explore(rep, tier, seed, proxy):
                              'worst_least_squares_contract_deviation': stats['worst_contract'], 'worst_rmse_identity_rel_deviation': stats['worst_rmse_identity'],
                              'thresholds': {'exact rmse': 1e-6, 'exact deviation/range': 1e-5, 'rmse identity': 1e-6, 'unit covariance deviation/range': 1e-4}}
     rep.cov['samples'] += [{'fit': k, 'count': v} for k, v in list(sorted(hist.items()))[:3]]
+    rep.cov['validation']['fits_with_a_robust_loss_checked'] = stats.get('robust_loss_fits', 0)
     rep.cov['trusted_base'] += ['hand-written model Fit/FitLogic.v (validated by the correspondence above)',
+                                'translator tools/py2v_fitglue.py (rmse line, residual and range of IsothermBaseModel.fit / Virial.fit -> Gen/FitGlueGen.v; the rest of fit is '
+                                'compared with the statements the translator was written against)',
                                 'oracle: scipy.optimize.least_squares - fun = residual(x), x within bounds (validated on every captured call); global convergence NOT assumed by any theorem',
                                 'oracle: model loading()/pressure() formulas (C10)', 'carrier: theorems over RNum, execution over QNum']
     rep.assumptions += ['dictionaries with a missing parameter name raise KeyError (model and code agree); no fit is returned, so nothing is judged',
@@ -735,26 +869,38 @@ def replay(d):
         oc, m = call(pygaps.ModelIsotherm.from_pointisotherm, piso, model=r['model'])
         print('generating parameters', r['params'])
         print('fit ->', oc, None if oc != 'Ok' else ({a: float(b) for a, b in m.model.params.items()}, 'rmse', m.model.rmse))
+    elif k == 'options':
+        p, l = np.array(r['p']), np.array(r['l'])
+        extra = {a: r[a] for a in ('param_bounds', 'param_guess') if r.get(a)}
+        if 'param_bounds' in extra:
+            extra['param_bounds'] = {n: tuple(b) for n, b in extra['param_bounds'].items()}
+        print('entry point %s, model %s, optimization_params=%r, verbose=%r, %r; data: %s' % (r['entry'], r['model'], r['optimization_params'], r['verbose'], extra, r.get('data')))
+        oc, m = fit_with_options(r['entry'], r['model'], p, l, r['mode'], r['optimization_params'], r['verbose'], extra)
+        print('fit ->', oc, None if oc != 'Ok' else (m.model.name, {a: float(b) for a, b in m.model.params.items()}, 'reported rmse', float(m.model.rmse),
+                                                     'actual rms deviation / (max - min)', actual_rmse(m.model, p, l)[0]))
     elif k in ('noisy', 'guess', 'named'):
         p, l = np.array(r['p']), np.array(r['l'])
+        okw = lambda: {} if not r.get('optimization_params') else dict(optimization_params=dict(r['optimization_params']))
+        if okw():
+            print('optimization_params =', r['optimization_params'])
         if k == 'guess' and 'frame' in r:
             df = pd.DataFrame(r['frame'])
             kw = dict(isotherm_data=df, pressure_key='pressure', loading_key='loading', branch=r['branch'])
-            oc, m = call(pygaps.ModelIsotherm.guess, models=r['models'], **kw, **kw_iso(r['mode']))
+            oc, m = call(pygaps.ModelIsotherm.guess, models=r['models'], **kw, **kw_iso(r['mode']), **okw())
             for nm in (r['models'] if r['models'] != 'guess' else []):
-                o1, i1 = call(pygaps.ModelIsotherm, model=nm, **kw, **kw_iso(r['mode']))
+                o1, i1 = call(pygaps.ModelIsotherm, model=nm, **kw, **kw_iso(r['mode']), **okw())
                 print('  single', nm, o1, None if o1 != 'Ok' else ('reported', float(i1.model.rmse), 'actual', actual_rmse(i1.model, p, l)[0]))
         elif k == 'guess':
-            oc, m = call(pygaps.ModelIsotherm.guess, pressure=p, loading=l, models=r['models'], **kw_iso(r['mode']))
+            oc, m = call(pygaps.ModelIsotherm.guess, pressure=p, loading=l, models=r['models'], **kw_iso(r['mode']), **okw())
             for nm in (r['models'] if r['models'] != 'guess' else []):
-                o1, i1 = call(pygaps.ModelIsotherm, pressure=p, loading=l, model=nm, **kw_iso(r['mode']))
+                o1, i1 = call(pygaps.ModelIsotherm, pressure=p, loading=l, model=nm, **kw_iso(r['mode']), **okw())
                 print('  single', nm, o1, None if o1 != 'Ok' else ('reported', float(i1.model.rmse), 'actual', actual_rmse(i1.model, p, l)[0]))
         else:
             extra = {a: r[a] for a in ('param_bounds', 'param_guess') if r.get(a)}
             if 'param_bounds' in extra:
                 extra['param_bounds'] = {n: tuple(b) for n, b in extra['param_bounds'].items()}
                 print('bounds as written (key order matters to the defect):', extra['param_bounds'])
-            oc, m = call(pygaps.ModelIsotherm, pressure=p, loading=l, model=r['model'], **kw_iso(r['mode']), **extra)
+            oc, m = call(pygaps.ModelIsotherm, pressure=p, loading=l, model=r['model'], **kw_iso(r['mode']), **extra, **okw())
         print('fit ->', oc, None if oc != 'Ok' else (m.model.name, {a: float(b) for a, b in m.model.params.items()}, 'reported rmse', float(m.model.rmse),
                                                      'actual rms deviation / (max - min)', actual_rmse(m.model, p, l)[0] if 'frame' not in r or True else None))
     else:
